@@ -18,7 +18,11 @@
 (* documents defined stays visible), "RenderMutates" (each render changes   *)
 (* the tree it renders), "SharedSingleton" (an option set on one instance    *)
 (* reaches the others through a shared extension object).                   *)
-(* TLC also prints every history: they are replayed on real instances.      *)
+(* TLC also prints every history: they are replayed on real instances; the   *)
+(* output of a call is what arrives in the destination the caller handed to  *)
+(* it - in the replay every second call writes through one caller-owned     *)
+(* buffered writer, the others into a buffer of their own, and a            *)
+(* destination must receive the bytes of exactly the calls it was given to. *)
 (***************************************************************************)
 EXTENDS Integers, Sequences, FiniteSets, TLC, Json
 CONSTANTS Docs, MaxLen, Emit, Mode
